@@ -588,3 +588,6 @@ def run(report, repo):
   from sa.rules import c06 as _c06  # pylint: disable=g-import-not-at-top
   report.guard(_c06.r8_order, report, repo, rule='C10-R10')
   report.guard(_e5b.attachments_paired_by_position, report, repo, 'C10-R11')
+  from sa.rules import extra5 as _e6  # pylint: disable=g-import-not-at-top
+  report.guard(_e6.start_time_recorded_once, report, repo, 'C10-R12')
+  report.guard(_e6.attr_copy_overrides_by_init_name, report, repo, 'C10-R13')
